@@ -55,6 +55,11 @@ CLAIMED = {
    note="Trusted: renderer, projection, tick!. Outside the procedures' domains (folds over improper lists, apply with an improper last argument, eq?/eqv? on pairs) nothing is demanded.",
    technique="TLA+ abstract machine with direct list-library semantics, TLC exhaustive small-scope family with algebraic-law invariant, replay, TLC trace validation",
    ref="DESIGN.md section 5, C11"),
+ "C06": dict(
+   text="Lexer.tla states the lexical grammar as 'split the text at delimiters; each piece is exactly one token or an error' (not the per-class scanners), Reader.tla builds data from tokens (dotted tails, vectors, quote abbreviation, number values; decimals through the exact binary32 model). TLC checks layout invariance on the specification (MCLexer: every pair of 36 token spellings x 6 separators: same two tokens for any white space/comment, and without separator a split exactly at delimiters) and prints the texts. Those texts, every string up to length 4 (5 thorough) over a 16-character alphabet, and random datum trees with random layout are put through the real Lexer and through eval of the quoted text; ReaderTrace.tla compares tokens and datum (and, for rendered trees, that the specification reads the text back as the tree it was rendered from).",
+   note="Trusted: token/value projection. Decimals must read as one of the two binary32 neighbours. Spellings outside the supported grammar are Unsupported (only C07 applies). One known finding (boolean literal followed by a non-delimiter, pinned by the test suite).",
+   technique="TLA+ lexer/reader specification, TLC law checking, TLC trace validation of the real lexer and reader on exhaustive short texts and random trees",
+   ref="DESIGN.md section 5, C06"),
 }
 PENDING_REASON = "no check is registered for this property yet: the specification module and binding for it are still being built (see DESIGN.md section 10); nothing is claimed"
 
